@@ -164,7 +164,8 @@ Definition check_msg_case (c : msg_case) : bool :=
   | MUntag data out => bytes_eqb (remove_cbor_tag data) out
   | MKdfEnc c out => match enc_kdf_ctx c, out with
                      | Some a, Some b => bytes_eqb a b
-                     | None, _ => true
+                     | None, None => true
+                     | None, Some _ => has_other 40 (VMap (omap (sp_prot (kc_pub c))))
                      | _, _ => false
                      end
   | MKdfDec data out => match dec_kdf_ctx data, out with
@@ -174,7 +175,8 @@ Definition check_msg_case (c : msg_case) : bool :=
                         end
   | MRecEnc r out => match marshal_recip r, out with
                      | Some a, Some b => bytes_eqb a b
-                     | None, _ => true
+                     | None, None => true
+                     | None, Some _ => existsb (fun l => has_other 40 (VMap (omap (rl_prot l))) || has_other 40 (VMap (omap (rl_unprot l)))) (rc_leaf r :: rc_subs r)
                      | _, _ => false
                      end
   | MRecDec data out => match recip_decode data, out with
@@ -189,7 +191,8 @@ Definition check_msg_case (c : msg_case) : bool :=
                      end
   | MHdrEnc m out => match headers_bytes m, out with
                      | Some a, Some b => bytes_eqb a b
-                     | None, _ => true
+                     | None, None => true
+                     | None, Some _ => has_other 40 (VMap m)
                      | _, _ => false
                      end
   end.
